@@ -104,6 +104,8 @@ def regress_scenarios(full):
     add([R("h1", 0, "h_meta"), TM(0), TM(0, "t.n"), TM(1)], extra_kinds={"h_meta": cat.handler_meta()})
     # C10: a byte stream arriving in pieces at the unbuffered .append of a command
     add([D("c1", 0, "c_bytes"), CL("c1", 0), CL("c1", 0)], extra_kinds={"c_bytes": cat.command_bytes()})
+    # C15: return_options.ttl without a suffix; the closure returning one of its own earlier output frames
+    add([R("h1", 0, "h_ttl"), R("h2", 1, "h_own"), T(0), T(1), T(1, "t.y"), T(0, "t.y"), T(1, "t.z")])
     # C14 mode B: burst while the closure sleeps
     add([R("h1", 0, "h_slow"), T(0, "t.slow"), BURST([T(0, "t.x"), T(0, "t.y"), T(1, "t.x"), T(0, "t.z"), T(0, "t.x"), T(0, "t.y")]),
          T(0, "t.slow"), BURST([T(0, "t.x"), U("h1", 0), T(0, "t.y")])])
@@ -162,7 +164,7 @@ def regress_scenarios(full):
 
 
 H_KINDS_T = ["h_echo", "h_echo", "h_echo_head", "h_slow", "h_pulse", "h_a1", "h_a2", "h_a3ctx", "h_str", "h_int", "h_list", "h_bool", "h_none",
-             "h_silent", "h_suffix", "h_suffix_a", "h_fail_before", "h_fail_mid", "h_fail_after", "h_cat", "h_cat_head"]
+             "h_silent", "h_suffix", "h_ttl", "h_suffix_a", "h_fail_before", "h_fail_mid", "h_fail_after", "h_cat", "h_cat_head"]
 H_KINDS_BAD = ["h_bad_parse", "h_bad_arity0", "h_bad_arity2", "h_bad_norun", "h_bad_resume", "h_bad_ttl"]
 TOPICS = ["t.x", "t.x", "t.y", "t.z", "t.fail", "t.slow"]
 
